@@ -72,8 +72,21 @@ def ensure(d):
     return d
 
 
+def big_stack():
+    """extracted code recurses over long lists: lift the stack limit for the OCaml drivers"""
+    import resource
+    try:
+        resource.setrlimit(resource.RLIMIT_STACK, (resource.RLIM_INFINITY, resource.RLIM_INFINITY))
+    except Exception:
+        try:
+            soft, hard = resource.getrlimit(resource.RLIMIT_STACK)
+            resource.setrlimit(resource.RLIMIT_STACK, (hard, hard))
+        except Exception:
+            pass
+
+
 def run_lines(binary, text, timeout=1200, env=None):
-    r = subprocess.run([binary], input=text, stdout=subprocess.PIPE, stderr=subprocess.PIPE, text=True, timeout=timeout, env=env)
+    r = subprocess.run([binary], input=text, preexec_fn=big_stack, stdout=subprocess.PIPE, stderr=subprocess.PIPE, text=True, timeout=timeout, env=env)
     return r.returncode, r.stdout, r.stderr
 
 
@@ -256,4 +269,9 @@ def prepare(ctx, variants=("plain",)):
     hb, key, t = vbuild.build_all(tuple(variants))
     ctx.hb = hb
     ctx.coq = vcoq.build()
+    for b in ("leafm", "adfm"):
+        if not os.path.exists(os.path.join(VERIF, "build", "ocaml", b)):
+            st = ctx.coq.get("stages", {})
+            raise RuntimeError("extracted model driver %s could not be built: %s" % (
+                b, json.dumps({k: v["log"][-600:] for k, v in st.items() if v.get("rc")})))
     return ctx
